@@ -337,3 +337,36 @@ func debugC06(run *Run, replay string) {
 }
 
 func init() { props["debug-vc"] = func(run *Run, replay string) { valueCandsCases(run) } }
+
+func init() {
+	props["debug-fe"] = func(run *Run, replay string) {
+		src := "hk = provider::a::b({for k, v in self.a.attr :"
+		w := newWorld()
+		pd := w.AddPath("root", valueFocusSchema(), map[string]string{"main.tf": src}, valueFocusFunctions())
+		w.Collect()
+		d, _ := w.Dec.Path(pd.Path)
+		body := pd.Ctx.Files["main.tf"].Body.(*hclsyntax.Body)
+		for _, b := range body.Blocks {
+			for n, a := range b.Body.Attributes {
+				fmt.Printf("attr %s expr %T range %v\n", n, a.Expr, a.Expr.Range())
+			}
+		}
+		tbl := lcTable([]byte(src))
+		for n, a := range body.Attributes {
+			fmt.Printf("attr %s expr %T range %v\n", n, a.Expr, a.Expr.Range())
+		}
+		for off := 3; off <= len(src); off++ {
+			pos, ok := tbl[off]
+			if !ok {
+				continue
+			}
+			c, err := d.CompletionAtPos(context.Background(), "main.tf", pos)
+			for _, x := range c.List {
+				if x.TextEdit.Range.End.Byte < x.TextEdit.Range.Start.Byte {
+					fmt.Printf("off %d cand %q kind %d range %v err %v\n", off, x.Label, x.Kind, x.TextEdit.Range, err)
+					break
+				}
+			}
+		}
+	}
+}
